@@ -96,15 +96,20 @@ func Fnv(b []byte) uint64 {
 }
 
 type Op struct {
-	Kind       byte // w r e p o
-	X, Z       int
-	Len, Seed  int
-	Now        uint32 // observed timestamp (filled in after the implementation ran)
+	Kind      byte // w r e p o
+	X, Z      int
+	Len, Seed int
+	Now       uint32 // observed timestamp (filled in after the implementation ran)
+	FailK     int    // 1 + index of the I/O call of this operation that fails (0: none)
+	FailShort int    // bytes a failing write of more than 4 bytes still stores
 }
 
 func (o Op) String() string {
 	switch o.Kind {
 	case 'w':
+		if o.FailK > 0 {
+			return fmt.Sprintf("wf %d %d %d %d %d %d %d", o.X, o.Z, o.Len, o.Seed, o.Now, o.FailK-1, o.FailShort)
+		}
 		return fmt.Sprintf("w %d %d %d %d %d", o.X, o.Z, o.Len, o.Seed, o.Now)
 	case 'r', 'e':
 		return fmt.Sprintf("%c %d %d", o.Kind, o.X, o.Z)
@@ -269,4 +274,57 @@ func ParseAnvil(b []byte) Anvil {
 		a.Chunks[i] = b[start+4 : start+4+l]
 	}
 	return a
+}
+
+// FailFile is a MemFile whose k-th I/O call (Seek, Read and Write calls counted together, from 0) fails.
+// A failing Write first stores Short bytes of its argument (a short write) and reports them.
+type FailFile struct {
+	MemFile
+	FailAt int // -1: never
+	Short  int
+	Ops    int    // calls so far
+	Failed string // what failed ("" if nothing yet)
+}
+
+var ErrInjected = errors.New("verif: injected I/O error")
+
+func (f *FailFile) hit(kind string) bool {
+	k := f.Ops
+	f.Ops++
+	if k == f.FailAt {
+		f.Failed = kind
+		return true
+	}
+	return false
+}
+
+func (f *FailFile) Read(p []byte) (int, error) {
+	if f.hit("read") {
+		return 0, ErrInjected
+	}
+	return f.MemFile.Read(p)
+}
+
+func (f *FailFile) Seek(off int64, whence int) (int64, error) {
+	if f.hit("seek") {
+		return 0, ErrInjected
+	}
+	return f.MemFile.Seek(off, whence)
+}
+
+func (f *FailFile) Write(p []byte) (int, error) {
+	if f.hit("write") {
+		n := f.Short
+		if n > len(p) {
+			n = len(p)
+		}
+		if len(p) <= 4 {
+			n = 0 // assumption of the failing-medium model: a failing 4-byte write stores nothing
+		}
+		if n > 0 {
+			f.MemFile.Write(p[:n])
+		}
+		return n, ErrInjected
+	}
+	return f.MemFile.Write(p)
 }
